@@ -197,8 +197,8 @@ def known_nfkc_alias_ok():
 
 def conditions(tier, seed):
     th = tier == "thorough"
-    n = 400 if th else 90
-    to = 120 if th else 30
+    n = 400 if th else 70
+    to = 120 if th else 25
     out = []
     for i in range(n):
         pid = seed * 100000 + i
